@@ -225,8 +225,8 @@ def variable_groups(layer: str) -> str:
 
 
 def dyn_defined_spec(layer: str, sn_table: str) -> str:
-    """Only the SNREF forms: DynIdDefModeInfo.from_et raises UnboundLocalError unless all three *-SNREF elements are
-    present (parser defect outside C11, see REPORT), so the *-REF forms cannot be loaded."""
+    """First mode info: the SNREF forms, second: the ODXLINK forms (loadable since /repo a4db7b5; before that
+    DynIdDefModeInfo.from_et raised UnboundLocalError unless all three *-SNREF elements were present)."""
     return X("DYN-DEFINED-SPEC", X("DYN-ID-DEF-MODE-INFOS",
                                    X("DYN-ID-DEF-MODE-INFO", T("DEF-MODE", "DYN-DEF-BY-ID"),
                                      X("CLEAR-DYN-DEF-MESSAGE-SNREF", SHORT_NAME="svc_dyn_clear"),
@@ -236,9 +236,9 @@ def dyn_defined_spec(layer: str, sn_table: str) -> str:
                                      X("SELECTION-TABLE-REFS", X("SELECTION-TABLE-REF", ID_REF=layer + ".tab"),
                                        X("SELECTION-TABLE-SNREF", SHORT_NAME=sn_table))),
                                    X("DYN-ID-DEF-MODE-INFO", T("DEF-MODE", "OTHER"),
-                                     X("CLEAR-DYN-DEF-MESSAGE-SNREF", SHORT_NAME="svc_dyn_clear"),
-                                     X("READ-DYN-DEF-MESSAGE-SNREF", SHORT_NAME="svc_dyn_read"),
-                                     X("DYN-DEF-MESSAGE-SNREF", SHORT_NAME="svc_dyn_def"),
+                                     X("CLEAR-DYN-DEF-MESSAGE-REF", ID_REF=layer + ".svc_dyn_clear"),
+                                     X("READ-DYN-DEF-MESSAGE-REF", ID_REF=layer + ".svc_dyn_read"),
+                                     X("DYN-DEF-MESSAGE-REF", ID_REF=layer + ".svc_dyn_def"),
                                      X("SUPPORTED-DYN-IDS", T("SUPPORTED-DYN-ID", "F300")))))
 
 
